@@ -81,6 +81,8 @@ class FaultModel:
         s = self.spec
         rng = self.rng
         rel = now - t0
+        if "spare" in s and any(k in s["spare"] for k in kind):
+            return [lat]  # this kind of datagram is never touched (e.g. retransmissions in a 'recoverable' phase)
         for start, dur in self._outages:
             if start <= rel < start + dur:
                 return []
@@ -180,3 +182,21 @@ class Link:
 
     def fingerprint(self):
         return self._h.hexdigest()
+
+
+class PhasedModel:
+    """Several FaultModels in sequence: [(end time relative to t0, FaultModel), ...]; after the last one: identity."""
+
+    def __init__(self, phases, latency=0.02):
+        self.phases = phases
+        self.latency = latency
+        self.forced = None
+        self.spec = {"phases": [(t, m.spec) for t, m in phases]}
+        self.heal = phases[-1][0] if phases else 0.0
+
+    def decide(self, now, t0, ordinal, kind):
+        rel = now - t0
+        for end, m in self.phases:
+            if rel < end:
+                return m.decide(now, t0, ordinal, kind)
+        return [self.latency]
